@@ -572,6 +572,7 @@ func main() {
 			if err != nil {
 				panic(err)
 			}
+			vsched.Focus()
 			for i := 0; i < 2; i++ {
 				i := i
 				vsched.Spawn(func() {
